@@ -75,23 +75,25 @@ Lemma emits_tr_round : forall c t, t_emits (tr_round c t) = t_emits t. Proof. re
 
 Section ReactProofs.
   Variable tn : list call -> res (list tmsg).
+  Variable tns : list call -> res (list string * list emitted).
   Variable rd : string -> bool.
   Variable rd_nonempty : bool.
   Variable modifier : list msg -> list msg.
   Variable visible : call -> bool.
 
   Notation react_spec := (react_spec tn rd rd_nonempty modifier visible).
-  Notation agent_loop := (agent_loop tn rd rd_nonempty modifier visible).
-  Notation agent_run := (agent_run tn rd rd_nonempty modifier visible).
+  Notation agent_loop := (agent_loop tn tns rd rd_nonempty modifier visible).
+  Notation agent_run := (agent_run tn tns rd rd_nonempty modifier visible).
 
-  Definition rd_id_of (calls : list call) : string :=
-    if rd_nonempty then rd_call_id rd calls else "".
+  (* the position of the first call to a return-directly tool, if the agent has a return-directly set *)
+  Definition rd_index_of (calls : list call) : option nat :=
+    if rd_nonempty then rd_call_index rd calls else None.
 
   (* with enough budget the answer is returned *)
   Fixpoint steps_needed (script : list step) : nat :=
     match script with
     | SMsg _ [] _ :: _ => 1
-    | SMsg _ calls _ :: rest => if String.eqb (rd_id_of calls) "" then 2 + steps_needed rest else 3
+    | SMsg _ calls _ :: rest => match rd_index_of calls with None => 2 + steps_needed rest | Some _ => 3 end
     | _ => 1
     end.
 
@@ -104,17 +106,19 @@ Section ReactProofs.
          match tn calls with
          | Ok results =>
              tr_emit (emitted_results visible calls results)
-             (if String.eqb (rd_id_of calls) "" then
+             match rd_index_of calls with
+             | None =>
                react_spec script b2 (hist ++ assistant content calls :: map tool_msg results)
-             else
+             | Some i =>
                match b2 with
                | O => tr_fail EStepLimit
                | S _ =>
-                   match find_tcid (rd_id_of calls) results with
+                   match nth_error results i with
                    | Some r => tr_final (tool_msg r)
                    | None => tr_fail ENoDirect
                    end
-               end)
+               end
+             end
          | r => tr_fail (tools_err r)
          end)).
   Proof. intros. destruct calls; [congruence|]. reflexivity. Qed.
@@ -128,7 +132,7 @@ Section ReactProofs.
   Lemma steps_needed_calls : forall content calls chunks rest,
     calls <> [] ->
     steps_needed (SMsg content calls chunks :: rest)
-    = if String.eqb (rd_id_of calls) "" then 2 + steps_needed rest else 3.
+    = match rd_index_of calls with None => 2 + steps_needed rest | Some _ => 3 end.
   Proof. intros. destruct calls; [congruence|]. reflexivity. Qed.
 
   (* a scripted reply is handled exactly in mode [md] by [checker]: what is delivered
@@ -141,9 +145,56 @@ Section ReactProofs.
         /\ checker (emitted_chunks md content calls chunks) = nonempty calls
     end.
 
+  (* the tools node's two forms agree on the calls of a reply: in Stream mode what the consumers
+     of its output stream obtain - the position-wise concatenation of the frames for the chat node,
+     the frame-by-frame filter of direct_return at the return-directly position - is what Invoke
+     returns resp. the message at that position; and the two forms fail alike.  Generate mode uses
+     Invoke itself.  (That compose.ToolsNode satisfies this is property C17:
+     tools_node_stream_exact in Proofs/ReactStream.v derives it from C17's theorems for the model of
+     the tools node that the correspondence check runs.) *)
+  Definition tools_exact (md : mode) (calls : list call) : Prop :=
+    match md with
+    | Generate => True
+    | Stream =>
+        match tn calls with
+        | Ok results =>
+            exists ids em, tns calls = Ok (ids, em)
+              /\ tout_results (TFrames ids em) = Ok results
+              /\ forall i, rd_index_of calls = Some i -> tout_direct i (TFrames ids em) = nth_error results i
+        | r => match tns calls with
+               | Ok _ => False
+               | r' => @tools_err (list tmsg) r = @tools_err (list string * list emitted) r'
+               end
+        end
+    end.
+
+  Definition reply_exact (checker : list chunk -> bool) (md : mode) (s : step) : Prop :=
+    step_exact checker md s
+    /\ match s with SMsg _ calls _ => calls <> [] -> tools_exact md calls | SFail => True end.
+
   (* ---- the graph-level loop refines the specification ---- *)
+  Lemma tools_round : forall md calls, tools_exact md calls ->
+    match tn calls with
+    | Ok results =>
+        exists o, tools_out tn tns md calls = Ok o /\ tout_results o = Ok results
+                  /\ forall i, rd_index_of calls = Some i -> tout_direct i o = nth_error results i
+    | r => match tools_out tn tns md calls with
+           | Ok _ => False
+           | r' => @tools_err tout r' = @tools_err (list tmsg) r
+           end
+    end.
+  Proof.
+    intros md calls H. destruct md; simpl in *.
+    - destruct (tn calls) as [results|e|]; simpl; auto.
+      exists (TWhole results). repeat split; auto.
+    - destruct (tn calls) as [results|e|].
+      + destruct H as [ids [em [H1 [H2 H3]]]]. exists (TFrames ids em). rewrite H1. auto.
+      + destruct (tns calls) as [p|e'|]; simpl in *; auto.
+      + destruct (tns calls) as [p|e'|]; simpl in *; auto.
+  Qed.
+
   Lemma loop_refines : forall checker md script,
-    Forall (step_exact checker md) script ->
+    Forall (reply_exact checker md) script ->
     forall fuel h0 rid input,
       agent_loop checker md fuel script (TChat input) (mkState h0 rid)
       = react_spec script fuel (h0 ++ input).
@@ -153,7 +204,7 @@ Section ReactProofs.
     - inversion HF as [|? ? Hs HF']; subst.
       destruct fuel as [|b1]; [reflexivity|]. simpl.
       destruct s as [|content calls chunks]; [reflexivity|].
-      destruct Hs as [Hd Hc]. rewrite Hd, Hc. f_equal. f_equal.
+      destruct Hs as [[Hd Hc] Ht]. rewrite Hd, Hc. f_equal. f_equal.
       destruct calls as [|c0 calls']; [reflexivity|].
       remember (c0 :: calls') as calls. assert (Hne : nonempty calls = true) by (subst; reflexivity).
       rewrite Hne. replace (match calls with [] => tr_final (assistant content []) | _ :: _ => _ end)
@@ -164,32 +215,39 @@ Section ReactProofs.
                     match tn calls with
                     | Ok results =>
                         tr_emit (emitted_results visible calls results)
-                        (let id := if rd_nonempty then rd_call_id rd calls else "" in
-                        if String.eqb id "" then
+                        match (if rd_nonempty then rd_call_index rd calls else None) with
+                        | None =>
                           react_spec script b2 ((h0 ++ input) ++ assistant content calls :: map tool_msg results)
-                        else
+                        | Some i =>
                           match b2 with
                           | O => tr_fail EStepLimit
                           | S _ =>
-                              match find_tcid id results with
+                              match nth_error results i with
                               | Some r => tr_final (tool_msg r)
                               | None => tr_fail ENoDirect
                               end
-                          end)
+                          end
+                        end
                     | r => tr_fail (tools_err r)
                     end
               end) by (subst; reflexivity).
       destruct b1 as [|b2]; [reflexivity|]. simpl. f_equal.
-      destruct (tn calls) as [results| |]; try reflexivity. f_equal.
-      destruct rd_nonempty.
-      + destruct (String.eqb (rd_call_id rd calls) "") eqn:E.
+      assert (Hne' : calls <> []) by (subst; discriminate).
+      pose proof (tools_round md calls (Ht Hne')) as Hr.
+      destruct (tn calls) as [results|e|].
+      + destruct Hr as [o [Ho [Hres Hdir]]]. rewrite Ho, Hres. f_equal.
+        unfold rd_index_of in Hdir.
+        destruct rd_nonempty.
+        * destruct (rd_call_index rd calls) as [i|] eqn:E.
+          -- destruct b2; [reflexivity|]. simpl. rewrite (Hdir i eq_refl). reflexivity.
+          -- rewrite (IH HF'). rewrite <- app_assoc. reflexivity.
         * rewrite (IH HF'). rewrite <- app_assoc. reflexivity.
-        * destruct b2; reflexivity.
-      + simpl. rewrite (IH HF'). rewrite <- app_assoc. reflexivity.
+      + destruct (tools_out tn tns md calls) as [o|e'|]; [destruct Hr| |]; simpl in *; congruence.
+      + destruct (tools_out tn tns md calls) as [o|e'|]; [destruct Hr| |]; simpl in *; congruence.
   Qed.
 
   Theorem agent_refines_spec : forall checker md script max_steps input,
-    Forall (step_exact checker md) script ->
+    Forall (reply_exact checker md) script ->
     agent_run checker md max_steps script input = react_spec script max_steps input.
   Proof.
     intros. unfold React.agent_run. rewrite loop_refines by auto. reflexivity.
@@ -198,9 +256,9 @@ Section ReactProofs.
   (* Generate: any checker that is exact on whole messages (both real ones are) *)
   Lemma generate_steps_exact : forall checker script,
     (forall content calls, checker [whole_chunk content calls] = nonempty calls) ->
-    Forall (step_exact checker Generate) script.
+    Forall (reply_exact checker Generate) script.
   Proof.
-    intros checker script H. apply Forall_forall. intros s _. destruct s; simpl; auto.
+    intros checker script H. apply Forall_forall. intros s _. destruct s; split; simpl; auto.
   Qed.
 
   Theorem generate_refines_spec : forall checker script max_steps input,
@@ -221,25 +279,34 @@ Section ReactProofs.
     | SMsg content calls chunks => checker chunks = nonempty calls
     end.
 
+  (* the streamed form of the tools node agrees with the invoked one on the calls of every reply *)
+  Definition tools_stream_exact (s : step) : Prop :=
+    match s with
+    | SFail => True
+    | SMsg _ calls _ => calls <> [] -> tools_exact Stream calls
+    end.
+
   Theorem generate_stream_agree_gen : forall checker script max_steps input,
     (forall content calls, checker [whole_chunk content calls] = nonempty calls) ->
     Forall chunking_valid script ->
     Forall (checker_exact checker) script ->
+    Forall tools_stream_exact script ->
     agent_run checker Stream max_steps script input = agent_run checker Generate max_steps script input.
   Proof.
-    intros checker script max_steps input Hw Hv He.
+    intros checker script max_steps input Hw Hv He Ht.
     rewrite generate_refines_spec by auto. apply agent_refines_spec.
-    rewrite Forall_forall in *. intros s Hs. specialize (Hv s Hs). specialize (He s Hs).
-    destruct s; simpl in *; auto. rewrite Hv. split; auto.
+    rewrite Forall_forall in *. intros s Hs. specialize (Hv s Hs). specialize (He s Hs). specialize (Ht s Hs).
+    destruct s; [split; simpl; auto|]. split; [|exact Ht]. simpl in *. rewrite Hv. split; auto.
   Qed.
 
   (* ... in particular with a checker that reads the whole stream *)
   Theorem generate_stream_agree_exact_checker : forall script max_steps input,
     Forall chunking_valid script ->
+    Forall tools_stream_exact script ->
     agent_run exact_checker Stream max_steps script input
     = agent_run exact_checker Generate max_steps script input.
   Proof.
-    intros script max_steps input Hv. apply generate_stream_agree_gen; auto.
+    intros script max_steps input Hv Ht. apply generate_stream_agree_gen; auto.
     - apply exact_checker_whole.
     - rewrite Forall_forall in *. intros s Hs. specialize (Hv s Hs). destruct s; simpl in *; auto.
       eapply exact_checker_exact; eauto.
@@ -280,23 +347,23 @@ Section ReactProofs.
         destruct b1 as [|b2]; [destruct k'; discriminate|].
         rewrite inputs_tr_emit, inputs_tr_round in H. simpl.
         destruct (tn calls) as [results| |]; try (destruct k'; discriminate).
-        rewrite inputs_tr_emit in H. simpl in H. destruct (String.eqb (if rd_nonempty then rd_call_id rd calls else "") "").
-        * apply (IH _ _ _ _ H).
+        rewrite inputs_tr_emit in H. simpl in H. destruct (if rd_nonempty then rd_call_index rd calls else None) as [i|].
         * destruct b2; [destruct k'; discriminate|].
-          destruct (find_tcid _ results); destruct k'; discriminate.
+          destruct (nth_error results i); destruct k'; discriminate.
+        * apply (IH _ _ _ _ H).
   Qed.
 
   (* the answer: the first plain message, or the result of the first return-directly call *)
   Inductive answers : list step -> msg -> Prop :=
   | ans_plain : forall content chunks rest,
       answers (SMsg content [] chunks :: rest) (assistant content [])
-  | ans_direct : forall content calls chunks rest results r,
+  | ans_direct : forall content calls chunks rest results i r,
       calls <> [] -> tn calls = Ok results ->
-      rd_id_of calls <> "" -> find_tcid (rd_id_of calls) results = Some r ->
+      rd_index_of calls = Some i -> nth_error results i = Some r ->
       answers (SMsg content calls chunks :: rest) (tool_msg r)
   | ans_later : forall content calls chunks rest results m,
       calls <> [] -> tn calls = Ok results ->
-      rd_id_of calls = "" -> answers rest m ->
+      rd_index_of calls = None -> answers rest m ->
       answers (SMsg content calls chunks :: rest) m.
 
   Theorem final_is_answer : forall script budget hist m,
@@ -312,12 +379,12 @@ Section ReactProofs.
         destruct b1 as [|b2]; [discriminate|].
         rewrite out_tr_emit, out_tr_round in H.
         destruct (tn calls) as [results| |] eqn:Et; try discriminate.
-        rewrite out_tr_emit in H. fold (rd_id_of calls) in H.
-        destruct (String.eqb (rd_id_of calls) "") eqn:E.
-        * apply String.eqb_eq in E. eapply ans_later; eauto.
-        * apply String.eqb_neq in E. destruct b2; [discriminate|].
-          destruct (find_tcid (rd_id_of calls) results) eqn:Ef; [|discriminate].
+        rewrite out_tr_emit in H. fold (rd_index_of calls) in H.
+        destruct (rd_index_of calls) as [i|] eqn:E.
+        * destruct b2; [discriminate|].
+          destruct (nth_error results i) eqn:Ef; [|discriminate].
           simpl in H. inversion H. eapply ans_direct; eauto.
+        * eapply ans_later; eauto.
   Qed.
 
   Theorem answer_is_final : forall script m,
@@ -326,14 +393,12 @@ Section ReactProofs.
   Proof.
     induction 1; intros budget hist Hb.
     - destruct budget; simpl in *; [lia|reflexivity].
-    - assert (E : String.eqb (rd_id_of calls) "" = false) by (apply String.eqb_neq; auto).
-      rewrite steps_needed_calls, E in Hb by auto. destruct budget as [|[|[|b]]]; try lia.
+    - rewrite steps_needed_calls, H1 in Hb by auto. destruct budget as [|[|[|b]]]; try lia.
       rewrite spec_unfold_calls by auto. rewrite out_tr_input, out_tr_emit, out_tr_round.
-      rewrite H0, out_tr_emit, E, H2. reflexivity.
-    - assert (E : String.eqb (rd_id_of calls) "" = true) by (apply String.eqb_eq; auto).
-      rewrite steps_needed_calls, E in Hb by auto. destruct budget as [|[|b]]; try lia.
+      rewrite H0, out_tr_emit, H1, H2. reflexivity.
+    - rewrite steps_needed_calls, H1 in Hb by auto. destruct budget as [|[|b]]; try lia.
       rewrite spec_unfold_calls by auto. rewrite out_tr_input, out_tr_emit, out_tr_round.
-      rewrite H0, out_tr_emit, E. apply IHanswers. lia.
+      rewrite H0, out_tr_emit, H1. apply IHanswers. lia.
   Qed.
 
   (* never more node executions than the step limit *)
@@ -355,15 +420,15 @@ Section ReactProofs.
       rewrite inputs_tr_input, rounds_tr_input, out_tr_input, inputs_tr_emit, rounds_tr_emit, out_tr_emit,
         inputs_tr_round, rounds_tr_round, out_tr_round.
       destruct (tn calls) as [results| |]; simpl; try lia.
-      destruct (String.eqb (rd_id_of calls) "").
+      destruct (rd_index_of calls) as [i|].
+      + destruct b2; simpl; [lia|]. destruct (nth_error results i) as [[? ?]|]; simpl; lia.
       + specialize (IH b2 (hist ++ assistant content calls :: map tool_msg results)%list). lia.
-      + destruct b2; simpl; [lia|]. destruct (find_tcid _ results) as [[? ?]|]; simpl; lia.
   Qed.
 
   (* a model that keeps calling tools is stopped by the step-limit error *)
   Definition looping (s : step) : Prop :=
     match s with
-    | SMsg _ calls _ => calls <> [] /\ (exists results, tn calls = Ok results) /\ rd_id_of calls = ""
+    | SMsg _ calls _ => calls <> [] /\ (exists results, tn calls = Ok results) /\ rd_index_of calls = None
     | SFail => False
     end.
 
@@ -383,29 +448,29 @@ Section ReactProofs.
 
   (* ---- the corollaries for the agent itself ---- *)
   Theorem agent_kth_input : forall checker md script max_steps input k h,
-    Forall (step_exact checker md) script ->
+    Forall (reply_exact checker md) script ->
     nth_error (t_inputs (agent_run checker md max_steps script input)) k = Some h ->
     exists h', history script k input = Some h' /\ h = modifier h'.
   Proof. intros until h. intros HF. rewrite agent_refines_spec by auto. apply kth_input. Qed.
 
   Theorem agent_final_is_answer : forall checker md script max_steps input m,
-    Forall (step_exact checker md) script ->
+    Forall (reply_exact checker md) script ->
     t_out (agent_run checker md max_steps script input) = Final m -> answers script m.
   Proof. intros until m. intros HF. rewrite agent_refines_spec by auto. apply final_is_answer. Qed.
 
   Theorem agent_answer_is_final : forall checker md script max_steps input m,
-    Forall (step_exact checker md) script ->
+    Forall (reply_exact checker md) script ->
     answers script m -> steps_needed script <= max_steps ->
     t_out (agent_run checker md max_steps script input) = Final m.
   Proof. intros. rewrite agent_refines_spec by auto. apply answer_is_final; auto. Qed.
 
   Theorem agent_steps_bounded : forall checker md script max_steps input,
-    Forall (step_exact checker md) script ->
+    Forall (reply_exact checker md) script ->
     executions (agent_run checker md max_steps script input) <= max_steps.
   Proof. intros. rewrite agent_refines_spec by auto. apply steps_bounded. Qed.
 
   Theorem agent_step_limit_stops : forall checker md script max_steps input,
-    Forall (step_exact checker md) script ->
+    Forall (reply_exact checker md) script ->
     Forall looping script -> max_steps <= 2 * List.length script ->
     t_out (agent_run checker md max_steps script input) = Failed EStepLimit.
   Proof. intros. rewrite agent_refines_spec by auto. apply step_limit_stops; auto. Qed.
@@ -420,9 +485,13 @@ Definition w_script : list step :=
     SMsg "The answer is 42" [] [mkChunk "The answer is 42" []] ].
 Definition w_tn (calls : list call) : res (list tmsg) :=
   Ok (map (fun c => (c_name c ++ "(" ++ c_args c ++ ")", c_id c)) calls).
+(* the same tools streamed: one frame per call, in call order *)
+Definition w_tns (calls : list call) : res (list string * list emitted) :=
+  Ok (map c_id calls,
+      map (fun p => (fst p, c_name (snd p) ++ "(" ++ c_args (snd p) ++ ")")) (combine (seq 0 (List.length calls)) calls)).
 Definition w_input : list msg := [mkMsg RUser "what is 6*7?" [] ""].
 Definition w_run (checker : list chunk -> bool) (md : mode) : trace :=
-  agent_run w_tn (fun _ => false) false (fun h => h) (fun _ => true) checker md 12 w_script w_input.
+  agent_run w_tn w_tns (fun _ => false) false (fun h => h) (fun _ => true) checker md 12 w_script w_input.
 
 Lemma witness_refutes_default :
   Forall chunking_valid w_script
